@@ -1,6 +1,7 @@
 package hx
 
 import (
+	"regexp"
 	"sort"
 
 	"github.com/yosida95/uritemplate/v3"
@@ -20,7 +21,10 @@ func TemplateTable(selectors, topics []string) string {
 		if err != nil {
 			continue
 		}
-		re := tpl.Regexp()
+		re := SafeRegexp(tpl)
+		if re == nil {
+			continue
+		}
 		var m []string
 		for _, t := range tops {
 			if re.MatchString(t) {
@@ -41,7 +45,18 @@ func OracleMatch(topic, sel string) bool {
 	if err != nil {
 		return false
 	}
-	return tpl.Regexp().MatchString(topic)
+	re := SafeRegexp(tpl)
+	return re != nil && re.MatchString(topic)
+}
+
+// SafeRegexp is nil when the expression generated from the template does not compile (the library panics).
+func SafeRegexp(tpl *uritemplate.Template) (re *regexp.Regexp) {
+	defer func() {
+		if recover() != nil {
+			re = nil
+		}
+	}()
+	return tpl.Regexp()
 }
 
 func uniq(l []string) []string {
